@@ -950,6 +950,15 @@ fn run_check(spec: &PropSpec, tier: Tier, seed: u64, only: Option<&str>, threads
     if let Some(o) = only {
         rels.retain(|r| r.name.contains(o));
     }
+    // fixed per-property work multiplier for the random cases (set by /verif/check; part of the tier definition)
+    let case_scale: f64 = std::env::var("VH_CASE_SCALE").ok().and_then(|s| s.parse().ok()).unwrap_or(1.0);
+    if case_scale != 1.0 {
+        for r in rels.iter_mut() {
+            if r.cases > 0 {
+                r.cases = ((r.cases as f64) * case_scale).round().max(1.0) as u32;
+            }
+        }
+    }
     // unique names
     {
         let mut seen = HashSet::new();
@@ -1063,6 +1072,7 @@ fn run_check(spec: &PropSpec, tier: Tier, seed: u64, only: Option<&str>, threads
             "exhaustive": all_exhaustive,
             "exhaustively_enumerated_cases": exhaustive_cases,
             "relations": reports.len(),
+            "case_scale": case_scale,
             "classes": classes,
             "known_finding_hits": known_hits,
             "per_relation": per_relation,
